@@ -1,7 +1,8 @@
 """C03 - order of named options is irrelevant."""
 from vlib import *
 import defs as D, linegen, cmdline_sig
-from cmdline_check import run_cmdline_property
+from cmdline_check import run_cmdline_property, merge_cov
+import itertools, random
 
 
 def families(tier):
@@ -37,11 +38,59 @@ def post(v, recs):
     v.info["permuted_pairs"] = n
 
 
+def shared_name_permutations(v):
+    """choices whose branches share a named item (outside the families the specification gives a meaning to):
+    SwapCommutes applied directly to the implementation - every permutation of the named items of a line must
+    give the same outcome"""
+    hbin = build_harness()
+    defs = []
+    for i, wrap in enumerate(["one", "opt"]):
+        q = D.branch(D.rf("q0", "one", "-v"))
+        lg = D.branch(D.rf("l0", "one", "-l"), D.sw("l1", "-v"))
+        order = [q, lg] if i == 0 else [lg, q]
+        defs.append(D.mkdef(f"shared{i}", D.level([D.sw("o1", "-x"), D.altf("g0", wrap, *order)], D.NOTAIL), maxlen=1))
+        lv = D.branch(D.ar("a0", "one", "str", "--level"), D.sw("a1", "-v"))
+        defs.append(D.mkdef(f"shared{i}b", D.level([D.altf("g0", wrap, q, lv), D.sw("o1", "-x")], D.postail(D.pos("p0", "opt"))), maxlen=1))
+    dpath = os.path.join(WORK, f"C03-{v.tier}-shared-defs.ndjson")
+    D.write_ndjson(dpath, defs)
+    cpath = os.path.join(WORK, f"C03-{v.tier}-shared-cases.ndjson")
+    n = 0
+    with open(cpath, "w") as w:
+        for d in defs:
+            pool = [["-v"], ["-l"], ["-x"], ["--level=1"], ["--level", "1"]]
+            for k in (1, 2, 3):
+                for combo in itertools.combinations(pool, k):
+                    perms = list(itertools.permutations(combo))
+                    for j, p in enumerate(perms):
+                        w.write(json.dumps({"def": d["id"], "argv": [x for g in p for x in g], "grp": f"{d['id']}|{sorted(map(tuple, combo))}",
+                                            "first": j == 0}) + "\n")
+                        n += 1
+    dump = os.path.join(WORK, f"C03-{v.tier}-shared-obs.ndjson")
+    run_replay(hbin, dpath, cpath, os.path.join(WORK, f"C03-{v.tier}-shared-mm.ndjson"), dump=dump)
+    base = {}
+    for r in read_ndjson(dump):
+        g = {k: r["got"].get(k) for k in ("class", "value", "kind")}
+        if r["grp"] not in base:
+            base[r["grp"]] = (g, r)
+        elif g != base[r["grp"]][0]:
+            b, br = base[r["grp"]]
+            v.report({"rule": "permutation_changes_outcome", "orig": b["class"], "perm": g["class"], "family": "shared_name_choice"},
+                     {"def": r["def"], "argv_bytes": r["argv_bytes"], "orig_argv": br["argv_bytes"], "expect": br["got"], "got": r["got"]})
+    return n
+
+
 def run(v):
     big = D.conv_family(SEED + 1030, 30, max_named=6, maxlen=3, budget=10**9) + \
         D.pos_family(SEED + 1031, 15, budget=10**9) + D.cmd_family(SEED + 1032, 15, depth=3, budget=10**9)
     cov = run_cmdline_property(v, families(v.tier), "MC_CmdLine_swap.cfg", signature=cmdline_sig.signature,
                                driver={"defs": big, "n": 20000 if v.tier == "quick" else 300000, "gen": gen, "post": post})
+    # choices (GroupLine engine): GSwapCommutes on the specification, all lines replayed
+    gfam = (D.alt_family(SEED + 33, 14, maxlen=4, budget=3000) + D.group_family(SEED, 3, 2000)[:10]) if v.tier == "quick" \
+        else (D.alt_family(SEED + 33, 80, maxlen=5, budget=40000) + D.group_family(SEED, 5, 40000))
+    gcov = run_cmdline_property(v, gfam, "MC_GroupLine_swap.cfg", replay_cfg="MC_GroupLine_replay.cfg", module="MC_GroupLine",
+                                signature=cmdline_sig.signature, trace_module="GroupLineTrace", name="C03g")
+    cov = merge_cov(cov, gcov, "groupline")
+    cov["shared_name_permutations"] = shared_name_permutations(v)
     cov["permuted_pairs_compared_on_impl"] = v.info.get("permuted_pairs", 0)
     cov["rule"] = ("SwapCommutes is checked by TLC in every reachable state (every exchange of two neighbouring occurrences "
                    "feeding different fields); all lines, hence all permutations up to maxlen, are replayed; the driver "
